@@ -883,6 +883,12 @@ func (f *Frame) builtin(st *State, e *ast.CallExpr, name string, preArgs []*Term
 		c.heapSet(st, ln, Store(ln0, m, Ite(had, Sub(Select(ln0, m), IntLit(1)), Select(ln0, m))))
 		c.heapSet(st, dn, Store(dom, m, Store(Select(dom, m), k, TFalse)))
 		return nil
+	case "close":
+		// channels carry no state in the model (no goroutines in the subset): closing one is a no-op on the heap;
+		// the panics of close (nil or closed channel) end the path like every other panic (partial correctness)
+		_ = arg(0)
+		c.note("close(channel) is a no-op in the model")
+		return nil
 	case "panic":
 		if !pre {
 			// evaluate nothing; path ends
